@@ -135,6 +135,19 @@ Section C04.
     by apply: dmap_ext => i; exact: g_isq_sq.
   Qed.
 
+  (* the same on the programs *)
+  Theorem pca_limit_sample_prog : a = 1 -> fit_oracle n m p k env true ->
+    let P := eval_mx env (pxt_prog n m p k true) in
+    [/\ P^T *m P = retained_mask k env, (X^T *m X) *m P = P *m diag_mx S^T
+      & eval_mx env (ptx_prog n m k true) = P^T].
+  Proof. by move=> a1 ho P; rewrite /P pxt_formula ptx_formula; exact: pca_limit_sample. Qed.
+
+  Theorem pca_limit_feature_prog : a = 1 -> fit_oracle n m p k env false ->
+    let P := eval_mx env (pxt_prog n m p k false) in
+    [/\ P = Vf *m retained_mask k env, (X^T *m X) *m Vf = Vf *m diag_mx S^T
+      & eval_mx env (ptx_prog n m k false) = P^T].
+  Proof. by move=> a1 ho P; rewrite /P pxt_formula ptx_formula; exact: pca_limit_feature. Qed.
+
   (* ---- the regression limit: mixing = 0, the oracle captured all of K~ = Yh Yh^T -------- *)
   Theorem regression_limit : a = 0 -> fit_oracle n m p k env true ->
     (* exact least squares: the residual is orthogonal to the features *)
@@ -176,6 +189,17 @@ Section C04.
       by rewrite hK -!mulmxA YhtR !mulmx0.
     by rewrite -(subrK Yh Y) mulmxDr PR PYh add0r.
   Qed.
+
+  Theorem regression_limit_prog : centred n m env -> a = 0 -> fit_oracle n m p k env true ->
+    X^T *m (Y - Yh) = 0 ->
+    Kt = Vs *m dmap (fun x => g_mk tol x * x) S *m Vs^T ->
+    eval_mx env (predict_x_prog n m p k true (eX n m)) = Yh
+    /\ eval_mx env (predict_t_prog n m p k true (transform_prog n m p k true (eX n m))) = Yh.
+  Proof.
+    move=> hc a0 ho hls hfull.
+    rewrite predict_t_formula transform_centred // predict_x_formula -/X mulmxA.
+    by rewrite (regression_limit a0 ho hls hfull).
+  Qed.
 End C04.
 
 (* ---- monotonicity: two fits of the same data with mixings a < b -------------------------- *)
@@ -215,7 +239,8 @@ Section C04Monotone.
     /\ (eval_mx ea (lossy_prog n p k (eVs n k))) ord0 ord0
       <= (eval_mx eb (lossy_prog n p k (eVs n k))) ord0 ord0.
   Proof.
-    rewrite !lossx_formula !lossy_formula -sameX -sameYh.
+    rewrite (lossx_formula m eb) (lossx_formula m ea).
+    rewrite (lossy_formula p eb) (lossy_formula p ea) -sameX -sameYh.
     have va : (e_Vs n k ea)^T *m e_Vs n k ea = 1%:M by case: fa => [[_ _ [v1 _]] _ _ _].
     have vb : (e_Vs n k eb)^T *m e_Vs n k eb = 1%:M by case: fb => [[_ _ [v1 _]] _ _ _].
     apply: (mixing_monotone a0 ab b1 va vb).
